@@ -3,46 +3,90 @@ from __future__ import annotations
 
 import json
 from pathlib import Path
-from typing import List
+from typing import List, Tuple
 
 from harness.lib.core import VERIF, Ctx, Rng, lean_lock, run_driver, shrink_ops
 from harness.extract import acl as x_acl
 from harness.rigs import acl as rig
+from harness.rigs import acl_state as rig_s
 
 MANIFEST = {
-    "text": "Lean 4 proof, for every rule list, packet and edit sequence, that the model of AccessControlList gives the verdict of the "
-            "lowest-positioned rule whose specified fields all match (wildcard masks characterised bit by bit), else the implicit action; "
-            "that exactly the decider's hit counter is incremented and counters never influence verdicts; that add/remove touch only the "
-            "addressed slot, reject out-of-range positions without change, and commute on distinct positions. Tie: constants, bounds and "
-            "scan shape regenerated from router.py (Gen/Acl.lean, obligation C07_gen_bounds) + differential rig R-acl through the Python "
-            "API, the request API and Router.from_config.",
-    "note": "C07-specific: Frame/IPPacket construction and pydantic coercion of ports/protocols are exercised by the rig, not modelled.",
-    "technique": "Lean 4 theorems over an executable ACL model; model tied by regenerated constants and a differential rig",
+    "text": "Lean 4 proof, for every rule list, packet/frame and sequence of the operations the code offers (constructor, add_rule, "
+            "remove_rule, is_permitted, assignment of implicit_action and max_acl_rules), that the model of AccessControlList gives the "
+            "verdict of the lowest-positioned rule whose specified fields all match (wildcard masks characterised bit by bit, and as "
+            "address intervals for contiguous masks; a specified port never matches a frame without TCP/UDP header), else the implicit "
+            "action IN FORCE (the last one assigned); that exactly the decider's hit counter is incremented (the implicit rule's counter = "
+            "number of fall-through verdicts) and counters never influence verdicts; that add/remove touch only the addressed slot, refuse "
+            "out-of-range positions without change and commute on distinct positions; that each of a firewall's seven lists behaves as if "
+            "alone under any interleaving. Tie: is_permitted, permit_frame_check, ip_matches_masked_range, subject_to_acl and "
+            "Frame.__init__ translated from the current source and proved equal to the model (C07_gen_is_permitted, "
+            "C07_gen_permit_frame_check, C07_gen_frame); constructor, bounds, readers of describe_state/show, add_rule keyword plumbing, "
+            "request-handler layout against the four agent actions, the seven loader loops and the device defaults regenerated as tables "
+            "with their own obligations; differential rig R-acl through the Python API, the request API, agent actions and "
+            "Router/Firewall.from_config, on bare lists, router lists and all seven firewall lists, with real pings and injected frames.",
+    "note": "C07-specific: pydantic coercion of ports/protocols/addresses and the PrettyTable rendering of show() are exercised by the rig, "
+            "not modelled; what a device does with a permitted frame is C06/C08's subject (here only the verdicts on its real frames).",
+    "technique": "Lean 4 theorems over an executable ACL model; model tied by source translation, regenerated tables and a differential rig",
     "design_ref": "5/C07",
 }
-MODULES = ["PrimaiteModel.Props.C07"]
+MODULES = ["PrimaiteModel.Props.C07", "PrimaiteModel.Props.C07State", "PrimaiteModel.Props.C07Wildcard", "PrimaiteModel.Props.C07Frame"]
 EXE = "drv_c07"
 
 
-def _diff_case(case: dict):
-    """Run one case on the implementation and the model. Returns (agree, impl_lines, model_lines, first_diff_index)."""
-    impl, slots, preload = rig.run_impl(case)
-    lines = rig.model_lines(case, slots, preload)
-    model = run_driver(EXE, lines)
+# ------------------------------------------------------------------------------------------ one case, any family
+def _impl(case: dict) -> Tuple[List[str], List[str], List[str]]:
+    """(implementation answers, model lines, oracle complaints) of one case of any family."""
+    fam = case.get("family", "list")
+    if fam == "list":
+        impl, slots, preload = rig.run_impl(case)
+        return impl, rig.model_lines(case, slots, preload), []
+    if fam == "obj":
+        impl, lines = rig_s.run_obj(case)
+        return impl, lines, []
+    if fam == "dev":
+        return rig_s.run_dev(case)
+    if fam == "wf":
+        impl, lines = rig_s.run_wf()
+        return ["ok"] + impl, ["reset"] + lines, []
+    raise ValueError(fam)
+
+
+def _first_diff(impl: List[str], model: List[str]) -> int:
     for i, (a, b) in enumerate(zip(impl, model)):
         if a != b:
-            return False, impl, model, i, lines
-    if len(impl) != len(model):
-        return False, impl, model, min(len(impl), len(model)), lines
-    return True, impl, model, -1, lines
+            return i
+    return -1 if len(impl) == len(model) else min(len(impl), len(model))
 
 
-def _sig(case: dict, lines: List[str], i: int, impl: List[str], model: List[str]) -> dict:
-    opname = lines[i].split()[0] if i < len(lines) else "?"
-    sig = {"kind": "model-vs-impl", "op": opname, "surface": case["surface"]}
-    if opname in ("add", "remove"):
-        pos = int(lines[i].split()[1])
-        sig["pos_class"] = "in-range" if 0 <= pos < 24 else ("24" if pos == 24 else "out-of-range")
+def _diff_case(case: dict):
+    """Run one case on the implementation and the model. Returns (agree, impl, model, first_diff_index, lines, complaints)."""
+    impl, lines, complaints = _impl(case)
+    model = run_driver(EXE, lines)
+    i = _first_diff(impl, model)
+    return (i < 0 and not complaints), impl, model, i, lines, complaints
+
+
+def _op_of_line(case: dict, lines: List[str], i: int) -> dict:
+    """sig material: which model line differs and which list it addresses"""
+    opname = lines[i].split()[0] if 0 <= i < len(lines) else "?"
+    lst = next((lines[j].split()[1] for j in range(min(i, len(lines) - 1), -1, -1) if lines[j].startswith("sel ")), None)
+    return {"op": opname, "list": lst}
+
+
+def _sig(case: dict, lines: List[str], i: int, complaints: List[str]) -> dict:
+    fam = case.get("family", "list")
+    if i < 0 and complaints:
+        return {"kind": "oracle", "family": fam, "what": "ping-vs-verdicts"}
+    d = _op_of_line(case, lines, i)
+    if fam == "list":
+        sig = {"kind": "model-vs-impl", "op": d["op"], "surface": case["surface"]}
+        if d["op"] in ("add", "remove"):
+            pos = int(lines[i].split()[1])
+            sig["pos_class"] = "in-range" if 0 <= pos < 24 else ("24" if pos == 24 else "out-of-range")
+        return sig
+    sig = {"kind": "model-vs-impl", "family": fam, "op": d["op"], "host": case.get("host") or case.get("kind")}
+    if d["list"]:
+        sig["list"] = d["list"]
     return sig
 
 
@@ -54,66 +98,148 @@ def replay(rec: dict) -> bool:
     return ok
 
 
+def _sweep_case() -> dict:
+    """Deterministic: every list of a firewall gets one distinct rule through every surface (the six (port, direction) pairs
+    through `firewall-acl-add-rule`, the inherited router list through `router-acl-add-rule`), one default is reassigned on
+    each, and everything is dumped: a rule or a default that lands in another list shows in `dumpall`."""
+    ops = []
+    for li, lst in enumerate(rig_s.LISTS):
+        for si, surf in enumerate(["api", "request", "action"]):
+            r = {"action": "DENY" if (li + si) % 2 else "PERMIT", "proto": ["tcp", "udp", "icmp"][si], "src_ip": f"10.{li}.{si}.1",
+                 "src_wc": "0.0.0.255" if si == 1 else None, "dst_ip": f"10.9.{li}.{si}", "dst_wc": "0.0.255.255" if si == 2 else None,
+                 "src_port": None if si == 2 else 1000 + li, "dst_port": None if si == 2 else 2000 + 10 * li + si}
+            ops.append({"op": "add", "list": lst, "surface": surf, "pos": 3 * li % 20 + si, "rule": r})
+        ops.append({"op": "setimp", "list": lst, "value": "PERMIT" if li % 2 else "DENY"})
+        ops.append({"op": "check", "list": lst, "pkt": {"proto": "tcp", "hdr": "tcp", "src": "172.16.0.1", "dst": "172.16.0.2", "sport": 1, "dport": 2}})
+        ops.append({"op": "check", "list": lst, "pkt": {"proto": "tcp", "hdr": "tcp", "src": f"10.{li}.0.1", "dst": f"10.9.{li}.0", "sport": 1000 + li,
+                                                         "dport": 2000 + 10 * li}})
+    for li, lst in enumerate(rig_s.LISTS):
+        ops.append({"op": "remove", "list": lst, "surface": ["action", "request", "api"][li % 3], "pos": 3 * li % 20 + 1})
+    return {"family": "obj", "host": "firewall", "ctor": None, "ops": ops}
+
+
 def run(ctx: Ctx):
     with lean_lock():
         ctx.extract("Acl", x_acl.emit)
         ctx.extract("AclMatch", x_acl.emit_match)
+        ctx.extract("AclState", x_acl.emit_state)
         ctx.prove(MODULES, exes=[EXE], clean=False, leanchecker=ctx.thorough)
-    ctx.cov["rule"] = ("cases = (surface in {python api, request api, Router.from_config}, implicit action, op sequence of "
-                       "add/remove/check over a covering address/mask/port/protocol domain); a case is non-trivial when some check "
-                       "is decided by a rule that is not the first non-empty slot, or an edit is refused; distinct by canonical JSON")
-    # corpus first
+    ctx.cov["rule"] = ("cases: family `list` = (surface in {python api, request api, agent action, Router.from_config}, implicit action, op "
+                       "sequence of add/remove/check over a covering address/mask/port/protocol domain); family `obj` = one list object "
+                       "(bare with constructor arguments / router / one of a firewall's seven) under add/remove by three surfaces, "
+                       "implicit_action and max_acl_rules assignment, verdicts, describe_state, show, num_rules; family `dev` = real "
+                       "network with edits, implicit_action assignments, pings and injected frames, every is_permitted call replayed; "
+                       "a case is non-trivial when some verdict is decided by a rule, an edit is refused, or a default was reassigned; "
+                       "distinct by canonical JSON")
     cases = []
     for f in sorted((VERIF / "corpus" / "C07").glob("*.json")):
         cases.append(("corpus:" + f.name, json.loads(f.read_text())["case"]))
-    n = ctx.scale(400, 8000)
+    cases.append(("sweep:firewall-lists", _sweep_case()))
+    cases.append(("wf:exhaustive", {"family": "wf"}))
     rng = ctx.rng.fork("acl")
-    for k in range(n):
+    for k in range(ctx.scale(400, 8000)):
         cases.append((f"gen:{k}", rig.gen_case(rng, max_ops=ctx.scale(30, 60))))
+    rng_o = ctx.rng.fork("acl-obj")
+    for k in range(ctx.scale(500, 10000)):
+        cases.append((f"obj:{k}", rig_s.gen_obj_case(rng_o, max_ops=ctx.scale(30, 60))))
+    rng_d = ctx.rng.fork("acl-dev")
+    for k in range(ctx.scale(150, 3000)):
+        cases.append((f"dev:{k}", rig_s.gen_dev_case(rng_d, max_ops=ctx.scale(14, 24))))
     # batch the model side: one driver run for all cases
-    impl_all, lines_all, bounds = [], [], []
+    impl_all, lines_all, bounds, complaints_all = [], [], [], []
     for name, case in cases:
-        impl, slots, preload = rig.run_impl(case)
-        lines = rig.model_lines(case, slots, preload)
+        impl, lines, complaints = _impl(case)
         bounds.append((len(lines_all), len(lines)))
         lines_all += lines
         impl_all.append(impl)
+        complaints_all.append(complaints)
     model_all = run_driver(EXE, lines_all)
     agree = 0
-    for (name, case), impl, (st, ln) in zip(cases, impl_all, bounds):
+    seen_sigs: dict = {}
+    fam_total: dict = {}
+    fw_lists_edited = set()
+    for (name, case), impl, (st, ln), complaints in zip(cases, impl_all, bounds, complaints_all):
+        fam = case.get("family", "list")
         model = model_all[st:st + ln]
         lines = lines_all[st:st + ln]
         ctx.cov["traces_validated_against_impl"] += 1
-        deciders = [l.split()[1] for l, q in zip(model, lines) if q.startswith("check")]
-        nontrivial = any(d not in ("implicit",) for d in deciders) or "raised" in model
-        ctx.case(case, nontrivial)
-        ctx.count("surface:" + case["surface"])
+        fam_total[fam] = fam_total.get(fam, 0) + 1
+        ctx.count("family:" + fam)
+        deciders = [m.split()[1] for m, q in zip(model, lines) if q.startswith(("check", "frame")) and len(m.split()) == 2]
+        nontrivial = (any(d not in ("implicit", "exempt") for d in deciders) or "raised" in model or "index-error" in model
+                      or any(q.startswith("setimp") for q in lines))
+        canon = {k: v for k, v in case.items() if not k.startswith("_")}
+        ctx.case(canon, nontrivial)
+        if fam == "list":
+            ctx.count("surface:" + case["surface"])
+        else:
+            ctx.count("host:" + str(case.get("host") or case.get("kind") or fam))
+        cur, reassigned = "router", set()
         for q, m in zip(lines, model):
-            ctx.count("op:" + q.split()[0])
-            if q.startswith("check"):
-                ctx.count("decider:" + ("implicit" if m.endswith("implicit") else "rule"))
+            w = q.split()
+            ctx.count("op:" + w[0] + (":" + w[1] if w[0] == "frame" else ""))
+            if w[0] == "sel":
+                cur = w[1]
+            if w[0] == "setimp":
+                reassigned.add(cur)
+            if w[0] in ("check", "frame"):
+                dec = m.split()[1] if len(m.split()) == 2 else "?"
+                ctx.count("decider:" + ("rule" if dec.isdigit() else dec))
+                if dec == "implicit" and cur in reassigned:
+                    ctx.count("fall-through verdicts AFTER implicit_action was reassigned")
             if m == "raised":
                 ctx.count("refused-edit")
+            if m == "index-error":
+                ctx.count("index-error-edit")
             if m == "bad-op":
                 raise RuntimeError(f"driver rejected line {q!r}")
-        if impl == model:
+        for op in case.get("ops", []) if fam in ("obj", "dev") else []:
+            if op["op"] in ("add", "remove"):
+                ctx.count(f"edit:{op['surface']}")
+                if (case.get("host") or case.get("kind")) == "firewall":
+                    fw_lists_edited.add((op["list"], op["surface"]))
+                    ctx.count(f"firewall-edit:{op['list']}")
+        if fam == "dev":
+            for k, v in case.get("_stats", {}).items():
+                if k == "raised":
+                    for r in v:
+                        ctx.count("inject raised above the filter (not compared): " + r)
+                else:
+                    ctx.count("dev:" + k, v)
+        if impl == model and not complaints:
             agree += 1
-            if name.startswith("gen:"):
-                ctx.sample({"case": name, "surface": case["surface"], "lines": lines[:8], "answers": model[:8]}, cap=3)
+            if name.startswith(("gen:", "obj:", "dev:")):
+                ctx.sample({"case": name, "family": fam, "lines": lines[:10], "answers": model[:10]}, cap=6)
             continue
-        # disagreement on a property observable: the model is proved to meet C07, so the trace is a failing input. Shrink it.
-        i = next((j for j, (a, b) in enumerate(zip(impl, model)) if a != b), min(len(impl), len(model)))
+        # disagreement on a property observable: the model is proved to meet C07, so the trace is a failing input. Shrink it
+        # (the first few of each signature only: a broken scan makes hundreds of traces disagree).
+        i = _first_diff(impl, model)
+        sig0 = json.dumps(_sig(case, lines, i, complaints), sort_keys=True)
+        seen_sigs[sig0] = seen_sigs.get(sig0, 0) + 1
+        if seen_sigs[sig0] > 2 or sum(1 for v in seen_sigs.values() if v) > 12:
+            ctx.count("disagreeing traces not shrunk (same signature already reported)")
+            continue
 
         def fails(ops, case=case):
-            c = dict(case, ops=ops)
+            c = dict({k: v for k, v in case.items() if not k.startswith("_")}, ops=ops)
             ok, *_ = _diff_case(c)
             return not ok
-        small = dict(case, ops=shrink_ops(case["ops"], fails))
-        ok, impl2, model2, i2, lines2 = _diff_case(small)
+        small = {k: v for k, v in case.items() if not k.startswith("_")}
+        if "ops" in case:
+            small = dict(small, ops=shrink_ops(case["ops"], fails, budget=ctx.scale(60, 200)))
+        ok, impl2, model2, i2, lines2, complaints2 = _diff_case(small)
         if ok:
-            small, impl2, model2, i2, lines2 = case, impl, model, i, lines
-        ctx.violation(_sig(small, lines2, i2, impl2, model2),
-                      f"ACL answer differs from the proved model at op {i2} ({lines2[i2] if i2 < len(lines2) else '?'}): "
-                      f"impl={impl2[i2] if i2 < len(impl2) else None!r} model={model2[i2] if i2 < len(model2) else None!r}",
-                      {"case": small, "lines": lines2, "impl": impl2, "model": model2, "first_diff": i2, "from": name})
+            small, impl2, model2, i2, lines2, complaints2 = case, impl, model, i, lines, complaints
+        if i2 >= 0:
+            what = (f"ACL answer differs from the proved model at op {i2} ({lines2[i2] if i2 < len(lines2) else '?'}): "
+                    f"impl={impl2[i2] if i2 < len(impl2) else None!r} model={model2[i2] if i2 < len(model2) else None!r}")
+        else:
+            what = "end-to-end oracle: " + "; ".join(complaints2[:3])
+        ctx.violation(_sig(small, lines2, i2, complaints2), what,
+                      {"case": {k: v for k, v in small.items() if not k.startswith("_")}, "lines": lines2, "impl": impl2, "model": model2,
+                       "first_diff": i2, "complaints": complaints2, "from": name})
     ctx.oblige("rig:R-acl agrees on every trace", "correspondence", agree == len(cases), f"{len(cases) - agree} of {len(cases)} traces disagree")
+    want = {(l, s) for l in rig_s.LISTS for s in ("api", "request", "action")}
+    ctx.oblige("rig:every firewall list edited through every surface", "coverage", want <= fw_lists_edited,
+               f"missing {sorted(want - fw_lists_edited)}")
+    ctx.cov["families"] = fam_total
